@@ -574,10 +574,104 @@ impl Analyzer
 				{
 					unreachable!()
 				}
-				ValueType::Pointer { .. } => Ok(value_type),
-				ValueType::View { .. } => Ok(value_type),
+				ValueType::Pointer { deref_type } =>
+				{
+					let deref_type = self.found_lengths_behind_indirection(
+						name_of_container,
+						name_of_member,
+						*deref_type,
+					)?;
+					Ok(ValueType::Pointer {
+						deref_type: Box::new(deref_type),
+					})
+				}
+				ValueType::View { deref_type } =>
+				{
+					let deref_type = self.found_lengths_behind_indirection(
+						name_of_container,
+						name_of_member,
+						*deref_type,
+					)?;
+					Ok(ValueType::View {
+						deref_type: Box::new(deref_type),
+					})
+				}
 			},
 			Err(poison) => Err(poison),
+		}
+	}
+
+	/// A structure behind a pointer or view is not contained in the container,
+	/// but a constant that is used as an array length there must still be
+	/// resolved before the container is.
+	fn found_lengths_behind_indirection(
+		&mut self,
+		name_of_container: &Identifier,
+		name_of_member: Option<&Identifier>,
+		value_type: ValueType,
+	) -> Poisonable<ValueType>
+	{
+		let mut recurse = |element_type: Box<ValueType>| {
+			self.found_lengths_behind_indirection(
+				name_of_container,
+				name_of_member,
+				*element_type,
+			)
+			.map(Box::new)
+		};
+		match value_type
+		{
+			ValueType::Array {
+				element_type,
+				length,
+			} => Ok(ValueType::Array {
+				element_type: recurse(element_type)?,
+				length,
+			}),
+			ValueType::ArrayWithNamedLength {
+				element_type,
+				named_length,
+			} =>
+			{
+				let element_type = recurse(element_type)?;
+				let named_length = self.found_container_1(
+					name_of_container,
+					name_of_member,
+					named_length,
+				)?;
+				Ok(ValueType::ArrayWithNamedLength {
+					element_type,
+					named_length,
+				})
+			}
+			ValueType::Slice { element_type } => Ok(ValueType::Slice {
+				element_type: recurse(element_type)?,
+			}),
+			ValueType::SlicePointer { element_type } =>
+			{
+				Ok(ValueType::SlicePointer {
+					element_type: recurse(element_type)?,
+				})
+			}
+			ValueType::EndlessArray { element_type } =>
+			{
+				Ok(ValueType::EndlessArray {
+					element_type: recurse(element_type)?,
+				})
+			}
+			ValueType::Arraylike { element_type } =>
+			{
+				Ok(ValueType::Arraylike {
+					element_type: recurse(element_type)?,
+				})
+			}
+			ValueType::Pointer { deref_type } => Ok(ValueType::Pointer {
+				deref_type: recurse(deref_type)?,
+			}),
+			ValueType::View { deref_type } => Ok(ValueType::View {
+				deref_type: recurse(deref_type)?,
+			}),
+			_ => Ok(value_type),
 		}
 	}
 
